@@ -251,6 +251,10 @@ func (c *checkSchema) checkLinksOfNode(node schema.Node, ss map[string]schema.Ty
 	}
 
 	c.collectAllowedJsonTypes(node, ss)
+	// "nullable" next to the list of types: the example may be null.
+	if n, ok := node.Constraint(constraint.NullableConstraintType).(*constraint.Nullable); ok && n.Bool() {
+		c.allowedJsonTypes[json.TypeNull] = struct{}{}
+	}
 	// The rule-set of an "or" rule ({type: "@foo", nullable: true}) has no
 	// example of its own: it is made with the one of the outer node, which may
 	// belong to another alternative, and is checked with the outer node.
